@@ -102,6 +102,37 @@ def _root_.TelSpec.Position.flags : Position → Flags
   | .telCondCons => ⟨false, true, false⟩
   | .telCondNeg => ⟨false, false, true⟩
 
+/-- the shape of a statement as far as `is_constraint` / `is_normal` look at it -/
+structure StmtShape where
+  isRule : Bool
+  headIsLiteral : Bool := false
+  atomIsBoolConst : Bool := false
+  atomValue : Bool := false
+  atomIsSymbolic : Bool := false
+  signNone : Bool := true
+  deriving Repr, DecidableEq
+
+def StmtShape.isConstraint (s : StmtShape) : Bool :=
+  Generated.isConstraint s.isRule s.headIsLiteral s.atomIsBoolConst s.atomValue s.atomIsSymbolic s.signNone
+def StmtShape.isNormal (s : StmtShape) : Bool :=
+  Generated.isNormal s.isRule s.headIsLiteral s.atomIsBoolConst s.atomValue s.atomIsSymbolic s.signNone
+
+/-- the statement a position lives in, as clingo's parser delivers it: `h :- B` with a positive symbolic head literal,
+    a rule whose head is a disjunction / choice / aggregate (not a literal), `:- B` (head literal `#false`),
+    `not h :- B` (head literal with a sign), or a statement that is not a rule -/
+def _root_.TelSpec.Position.stmt : Position → StmtShape
+  | .normalHead | .bodyLit | .bodyCondLit | .bodyCondCond | .bodyAggCond | .telCondNeg =>
+      { isRule := true, headIsLiteral := true, atomIsSymbolic := true }
+  | .disjElem | .disjCond | .choiceElem | .choiceCond | .headAggElem | .headAggCond | .negDisjElem =>
+      { isRule := true }
+  | .consLit | .consCondLit | .consCondCond | .consAggCond | .telCondCons =>
+      { isRule := true, headIsLiteral := true, atomIsBoolConst := true, atomValue := false }
+  | .negHead | .negHeadBody =>
+      { isRule := true, headIsLiteral := true, atomIsSymbolic := true, signNone := false }
+  | .external | .externalBody | .showBody | .weakBody | .heuristicAtom | .heuristicBody | .edgeBody
+  | .projectAtom | .projectBody | .minimizeBody =>
+      { isRule := false }
+
 /-- is an atom with this predicate name accepted at this position? -/
 def acceptsAtom (pos : Position) (name : String) : Py ParamRes :=
   let f := pos.flags
